@@ -84,6 +84,30 @@ def specCycleKeys (ac : Bool) (cy : Cycle) : List KOut :=
 
 def specKeys (ac : Bool) (h : List Cycle) : List KOut := h.flatMap (specCycleKeys ac)
 
+/-! ### rejected pushes
+
+A `Push` of a value whose type is not the sorter's element type returns the "type mismatch"
+error before it touches anything: it is a no-op of the history.  A program is a history with
+such calls inserted anywhere. -/
+
+/-- the program without its rejected pushes -/
+def dropRejects (ops : List Op) : List Op := ops.filter (· != Op.reject)
+
+/-- the outputs of the accepted calls -/
+def dropRejOuts (outs : List Out) : List Out := outs.filter (·.res != Res.rejected)
+
+/-- The outputs of a program with rejected pushes, from the outputs `outs` of the same program
+    without them: a rejected `Push` returns its error, delivers nothing, and `Len`/`Pos` are what
+    the previous call left (`l`, `p`: 0 before the first call). -/
+def weave : List Op → List Out → Nat → Nat → List Out
+  | [], _, _, _ => []
+  | .reject :: ops, outs, l, p => ⟨.rejected, none, l, p⟩ :: weave ops outs l p
+  | .push _ :: ops, o :: outs, _, _ => o :: weave ops outs o.len o.pos
+  | .finalise :: ops, o :: outs, _, _ => o :: weave ops outs o.len o.pos
+  | .pull :: ops, o :: outs, _, _ => o :: weave ops outs o.len o.pos
+  | .clear :: ops, o :: outs, _, _ => o :: weave ops outs o.len o.pos
+  | _ :: _, [], _, _ => []
+
 /-! ### grouping a flat operation list into cycles (driver side) -/
 
 def splitPushes : List Op → List Elem × List Op
